@@ -140,9 +140,150 @@ def kmer_harnesses():
     return hs
 
 
+def exts_harnesses():
+    hs = []
+    hs.append(H("c12_exts_rc", ["C12", "C03", "C05", "C06"], "crate::exts_ops::rc()",
+                funcs=["Exts::rc", "Exts::complement", "Exts::reverse", "Exts::has_ext"],
+                bounds="all 256 extension sets x both directions x all bases"))
+    for tag in ("kmer3", "kmer4", "kmer6", "kmer16", "kmer31", "kmer32", "kmer48", "kmer64"):
+        ty = KT_BY_TAG[tag][1]
+        hs.append(H("c12_exts_rc_kmer__" + tag, ["C12", "C06"], "crate::exts_ops::rc_kmer::<%s>()" % ty,
+                    funcs=["Kmer::extend", "Mer::rc"],
+                    bounds="all k-mer values x both directions x all bases"))
+    hs.append(H("c03_exts_algebra", ["C03", "C02", "C05", "C08", "C09"], "crate::exts_ops::algebra()", unwind=6,
+                funcs=["Exts::num_ext_dir", "Exts::get_unique_extension", "Exts::single_dir", "Exts::set",
+                       "Exts::add", "Exts::merge", "Exts::from_single_dirs", "Exts::mk", "Exts::mk_left",
+                       "Exts::mk_right", "Exts::new", "Exts::empty"],
+                bounds="all pairs of the 256 extension sets, both directions, all bases"))
+    hs.append(H("c03_exts_get_list", ["C03"], "crate::exts_ops::get_list()", unwind=6, stubs=["S1"],
+                funcs=["Exts::get"], bounds="all 256 extension sets x both directions"))
+    hs.append(H("c08_exts_from_slice_bounds", ["C08"], "crate::exts_ops::from_slice_bounds::<6>()", unwind=8,
+                funcs=["Exts::from_slice_bounds"],
+                bounds="all reads of 6 bases, all (start,length) with start+length<=6"))
+    return hs
+
+
+def lmer_harnesses():
+    hs = []
+    for n in (1, 2, 3, 4, 5, 6):
+        tier = "quick" if n <= 3 else "thorough"
+        mx = 32 * n - 4
+        b = "Lmer<[u64;%d]>: every raw state satisfying INV_L (all lengths 0..=%d, all contents)" % (n, mx)
+        hs.append(H("c17_new__n%d" % n, ["C17"], "crate::lmer_ops::new::<%d>()" % n, unwind=n + 2, tier=tier,
+                    funcs=["Vmer::new", "Mer::len", "Mer::is_empty", "Vmer::max_len"], bounds=b))
+        hs.append(H("c17_get_set__n%d" % n, ["C17"], "crate::lmer_ops::get_set::<%d>()" % n, unwind=8 * n + 2,
+                    tier=tier, funcs=["Mer::get", "Mer::set_mut", "MerImmut::set"], bounds=b + ", all positions, all bases"))
+        hs.append(H("c17_set_slice__n%d" % n, ["C17"], "crate::lmer_ops::set_slice::<%d>()" % n, unwind=8 * n + 2,
+                    tier=tier, cap=300, funcs=["Mer::set_slice_mut", "MerImmut::set_slice"],
+                    bounds=b + ", all pos, n in 1..=32 with pos+n<=len, all 2^64 values"))
+        hs.append(H("c17_rc__n%d" % n, ["C17", "C12"], "crate::lmer_ops::rc::<%d>()" % n, unwind=8 * n + 2,
+                    tier=tier, cap=300, funcs=["Lmer::rc", "Mer::set_slice_mut"], bounds=b))
+        hs.append(H("c17_eq_hash__n%d" % n, ["C17"], "crate::lmer_ops::eq_hash::<%d>()" % n, unwind=max(32 * n, 24 + 8 * n) + 2,
+                    tier=tier, cap=300, funcs=["PartialEq::eq", "Hash::hash"], bounds=b + ", all pairs"))
+    hs.append(H("c17_from_slice__n1", ["C17"], "crate::lmer_ops::from_slice::<1, 6>()", unwind=8,
+                funcs=["Vmer::from_slice"], bounds="all byte strings (bases<4) of length 0..=6"))
+    hs.append(H("c17_from_slice__n2", ["C17"], "crate::lmer_ops::from_slice::<2, 34>()", unwind=36,
+                funcs=["Vmer::from_slice"], bounds="all byte strings (bases<4) of length 0..=34"))
+    # k-mer extraction: every K that fits, from every capacity
+    core = {"kmer3", "kmer4", "kmer8", "kmer16", "kmer31", "kmer32", "kmer48", "kmer64"}
+    for tag, ty, k, bits, _ in KT:
+        for n in (1, 2, 3):
+            if k > 32 * n - 4:
+                continue
+            q = tag in core and (n == 3 or (n == 1 and k <= 16) or (n == 2 and k >= 31))
+            hs.append(H("c13_lmer_get_kmer__%s__n%d" % (tag, n), ["C13", "C17"],
+                        "crate::lmer_ops::get_kmer::<%s, %d>()" % (ty, n), unwind=5,
+                        tier="quick" if q else "thorough",
+                        funcs=["Lmer::get_kmer", "Vmer::first_kmer", "Vmer::last_kmer", "Mer::set_slice_mut"],
+                        bounds="Lmer<[u64;%d]> every INV_L state with len>=K, every position" % n))
+    return hs
+
+
+def dnastring_harnesses():
+    hs = []
+    INV = "every INV_S state (storage.len()==ceil(len/32), padding bits zero)"
+    for b in (0, 1, 2, 3):
+        hs.append(H("c14_observe__b%d" % b, ["C14"], "crate::dnastring_ops::observe::<%d>()" % b,
+                    unwind=32 * b + 4, funcs=["DnaString::len", "DnaString::is_empty", "Mer::get", "DnaString::iter",
+                                              "DnaStringIter::next", "IntoIterator::into_iter"],
+                    bounds="%d-block strings (len %s), %s, all positions" % (b, "0" if b == 0 else "%d..=%d" % (32 * b - 31, 32 * b), INV)))
+        hs.append(H("c14_push__b%d" % b, ["C14"], "crate::dnastring_ops::push::<%d>()" % b, unwind=8 * b + 10,
+                    funcs=["DnaString::push", "set_by_addr", "addr"],
+                    bounds="%d-block pre-state, %s, all 256 pushed byte values" % (b, INV)))
+        if b >= 1:
+            hs.append(H("c14_set__b%d" % b, ["C14"], "crate::dnastring_ops::set::<%d>()" % b, unwind=8 * b + 10,
+                        funcs=["Mer::set_mut", "set_by_addr"], bounds="%d-block state, %s, all i,j, all 256 byte values" % (b, INV)))
+            hs.append(H("c14_ndiffs__b%d" % b, ["C14"], "crate::dnastring_ops::ndiffs_::<%d>()" % b, unwind=32 * b + 4,
+                        cap=300, funcs=["ndiffs", "DnaString::hamming_distance", "count_diff_2_bit_packed"],
+                        bounds="all pairs of equal-length %d-block INV_S strings" % b))
+        if b <= 2:
+            hs.append(H("c14_clear__b%d" % b, ["C14"], "crate::dnastring_ops::clear::<%d>()" % b, unwind=8 * b + 10,
+                        funcs=["DnaString::clear", "DnaString::push"], bounds="%d-block pre-state, %s" % (b, INV)))
+            hs.append(H("c14_clone_eq__b%d" % b, ["C14"], "crate::dnastring_ops::clone_eq::<%d>()" % b, unwind=8 * b + 10,
+                        funcs=["Clone::clone", "PartialEq::eq"], bounds="%d-block state, %s" % (b, INV)))
+    for pre in (0, 1, 30, 31, 32, 33, 63, 64, 65):
+        b = (pre + 31) // 32
+        for m in (0, 1, 3):
+            hs.append(H("c14_extend__pre%d_m%d" % (pre, m), ["C14"], "crate::dnastring_ops::extend::<%d, %d, %d>()" % (b, pre, m), unwind=36,
+                        cap=300, tier="quick" if (m == 3 or pre in (0, 31, 32)) else "thorough",
+                        funcs=["DnaString::extend", "DnaString::push"],
+                        bounds="pre-length %d (all contents), %d appended bases (all values)" % (pre, m)))
+    for pre in (0, 30, 32):
+        b = (pre + 31) // 32
+        hs.append(H("c14_push_bytes__pre%d" % pre, ["C14"], "crate::dnastring_ops::push_bytes::<%d, %d, 2>()" % (b, pre), unwind=12,
+                    cap=300, funcs=["DnaString::push_bytes", "DnaString::push"],
+                    bounds="pre-length %d (all contents), 2 packed bytes (all values), seq_length 0..=8" % pre))
+    for n in (0, 1, 5, 31, 32, 33):
+        hs.append(H("c14_ctors__n%d" % n, ["C14"], "crate::dnastring_ops::ctors::<%d>()" % n, unwind=20,
+                    funcs=["DnaString::new", "Default::default", "DnaString::with_capacity", "DnaString::blank", "Vmer::new"],
+                    bounds="n=%d" % n))
+        hs.append(H("c14_from_bytes__n%d" % n, ["C14"], "crate::dnastring_ops::from_bytes::<%d, %d>()" % (n, n + 1), unwind=36,
+                    cap=300, funcs=["DnaString::from_bytes", "DnaString::extend"], bounds="all base strings of length %d" % n))
+    for n in (0, 1):
+        hs.append(H("c14_from_dna_string__n%d" % n, ["C14", "C16"], "crate::dnastring_ops::from_dna_string::<%d, %d>()" % (n, n + 1), unwind=36,
+                    cap=300, funcs=["DnaString::from_dna_string", "base_to_bits", "DnaString::extend"],
+                    bounds="all ASCII (<128) strings of length %d" % n))
+    for n in (1, 2, 3, 5):
+        hs.append(H("c14_render__len%d" % n, ["C14"], "crate::dnastring_ops::render::<%d>()" % n, unwind=n + 4,
+                    cap=300, stubs=["S1"], funcs=["DnaString::to_bytes", "DnaString::to_ascii_vec", "DnaString::reverse", "bits_to_ascii"],
+                    bounds="all strings of length %d" % n))
+    for n in (0, 1, 2, 31, 32, 33, 63, 64, 65):
+        b = (n + 31) // 32
+        hs.append(H("c12_ds_rc__len%d" % n, ["C12", "C14"], "crate::dnastring_ops::rc::<%d, %d>()" % (b, n), unwind=max(n, 33) + 3,
+                    cap=300, tier="quick" if n <= 33 else "thorough",
+                    funcs=["DnaString::rc", "DnaString::extend"], bounds="all strings of length %d" % n))
+    for ba, bb in ((0, 0), (0, 1), (1, 1), (1, 2), (2, 1), (2, 2)):
+        hs.append(H("c14_eq_ord_hash__b%d_b%d" % (ba, bb), ["C14"], "crate::dnastring_ops::eq_ord_hash::<%d, %d>()" % (ba, bb),
+                    unwind=32 * max(ba, bb, 1) + 12, cap=300,
+                    funcs=["PartialEq::eq", "Ord::cmp", "PartialOrd::partial_cmp", "Hash::hash"],
+                    bounds="all pairs of INV_S strings with %d and %d blocks" % (ba, bb)))
+    for pre, e, m in ((5, 0, 3), (5, 1, 3), (31, 2, 3), (31, 1, 0), (32, 1, 1)):
+        hs.append(H("c14_packed_add__pre%d_e%d_m%d" % (pre, e, m), ["C14"], "crate::dnastring_ops::packed_add::<1, %d, %d, %d>()" % (pre, e, m), unwind=14,
+                    cap=300, funcs=["PackedDnaStringSet::add", "PackedDnaStringSet::get", "PackedDnaStringSet::slice", "PackedDnaStringSet::len"],
+                    bounds="backing string of %d bases (all contents), %d existing entries (all consistent start/length), %d added bases (all values)" % (pre, e, m)))
+    # C13: extraction from the growable string
+    core = {"kmer4", "kmer31", "kmer32", "kmer64"}
+    for tag, ty, k, bits, _ in KT:
+        if tag == "kmer4v":
+            continue
+        for b in (1, 2, 3):
+            if k > 32 * b:
+                continue
+            q = tag in core and ((b == 2 and k <= 32) or (b == 3 and k > 32))
+            hs.append(H("c13_ds_get_kmer__%s__b%d" % (tag, b), ["C13"],
+                        "crate::dnastring_ops::get_kmer::<%s, %d>()" % (ty, b), unwind=8 * b + 10, cap=500,
+                        tier="quick" if q else "thorough",
+                        funcs=["DnaString::get_kmer", "Vmer::first_kmer", "Vmer::last_kmer", "Vmer::term_kmer", "Mer::set_slice_mut"],
+                        bounds="%d-block strings, %s, every position" % (b, INV)))
+    return hs
+
+
 def all_harnesses():
     hs = []
     hs += kmer_harnesses()
+    hs += dnastring_harnesses()
+    hs += exts_harnesses()
+    hs += lmer_harnesses()
     names = set()
     for h in hs:
         assert h.name not in names, h.name
